@@ -45,10 +45,26 @@ def suite_stage(ctx, kind):
             ctx.violation(v["mechanism"], v["detail"])
 
 
+EXH_LEN = 3
+
+
+def n_exhaustive(kind):
+    return 2 * len(history.alphabet(kind, True)) ** EXH_LEN
+
+
 def make(kind, prop, quick, thorough, long_every=30):
     tag = kind
 
     def run_case(ctx, rng, idx):
+        if ctx.tier == "thorough" and idx >= thorough:
+            # bounded-exhaustive part: EVERY history of length EXH_LEN over the small alphabet, weighted and unweighted
+            j = idx - thorough
+            n_seq = len(history.alphabet(kind, True)) ** EXH_LEN
+            weighted, number = j >= n_seq, j % n_seq
+            ctx.event("exhaustive-history")
+            history.exhaustive_history(ctx, rng, kind, weighted, number, EXH_LEN, tag)
+            ctx.distinct_add(("exh", weighted, number))
+            return
         if idx == 0:
             suite_stage(ctx, kind)
         long = ctx.tier == "thorough" and idx % long_every == 0
